@@ -2,6 +2,7 @@
 from __future__ import annotations
 
 import ast
+import re
 from typing import List
 
 from .cfg import CFG
@@ -358,6 +359,37 @@ def u_r1b_loop_state_on_unknown_path(schema: Schema, rep: Report):
     has_reduce = any(isinstance(n, ast.Call) and dotted(n.func) in ("functools.reduce", "reduce") for n in own_nodes(outer))
     if has_reduce:
         rep.check("U-R1b", "_convert:fold-form", True, "functools.reduce: the accumulator discipline is U-R1's", f"{rel}:{outer.lineno}")
+        # ... whatever idiom finds the tag in the spec (list.index in a try, a dict of positions with a sentinel): the
+        # block that warns UnknownTagWarning leaves the reducer by `return <the accumulator parameter>` and nothing else
+        red = next((n for n in own_nodes(outer) if isinstance(n, ast.Call) and dotted(n.func) in ("functools.reduce", "reduce") and n.args and isinstance(n.args[0], ast.Name)), None)
+        inner = next((f for f in ast.walk(outer) if isinstance(f, ast.FunctionDef) and red is not None and f.name == red.args[0].id), None)
+        if inner is not None and inner.args.args:
+            accum = inner.args.args[0].arg
+
+            def _warns(c):
+                return isinstance(c, ast.Call) and text(c.func).split(".")[-1] == "warn" and any("UnknownTagWarning" in text(a) for a in list(c.args) + [k.value for k in c.keywords])
+
+            def _block_of(stmts):
+                for st in stmts:
+                    if not any(_warns(c) for c in ast.walk(st)):
+                        continue
+                    for fld in ("body", "orelse", "finalbody"):
+                        sub = getattr(st, fld, None)
+                        if isinstance(sub, list) and any(_warns(c) for x in sub for c in ast.walk(x)):
+                            return _block_of(sub) or sub
+                    for h in getattr(st, "handlers", []) or []:
+                        if any(_warns(c) for x in h.body for c in ast.walk(x)):
+                            return _block_of(h.body) or h.body
+                    return None
+                return None
+
+            blk = _block_of(inner.body)
+            if blk is not None:
+                rets = [r for st in blk for r in ast.walk(st) if isinstance(r, ast.Return)]
+                bad = next((r for r in rets if not (isinstance(r.value, ast.Name) and r.value.id == accum)), None)
+                rebound = any(isinstance(x, ast.Name) and isinstance(x.ctx, ast.Store) and x.id == accum for x in ast.walk(inner))
+                if rets:
+                    rep.check("U-R1b", "update_args:unknown-branch-returns-the-accumulator", bad is None and not rebound, f"the branch that reports an unknown tag returns {text(bad.value)[:60] if bad is not None and bad.value is not None else 'a re-bound accumulator'}, not the accumulator it was given: the ordering state (previous index / previous-is-list-member) or the collected values change, so an unknown tag alters how the children after it are checked and read" if (bad is not None or rebound) else "", f"{rel}:{(bad or rets[0]).lineno}")
         return
 
     def is_unknown_warn(c):
@@ -424,3 +456,50 @@ def u_r1b_loop_state_on_unknown_path(schema: Schema, rep: Report):
         rep.check("U-R1b", f"_convert:loop:unknown-path-keeps:{nm}", False, f"`{nm}` is carried from child to child and tested in a condition, and it is assigned ({text(st)[:50]}) before the child's tag is known to be declared: after an unknown tag the following children are read against state the unknown tag set", f"{rel}:{st.lineno}")
     else:
         rep.check("U-R1b", "_convert:loop:unknown-path-keeps-state", True, f"state {sorted(state)}", f"{rel}:{loop.lineno}")
+
+
+def u_r10_tables_indexed_by_tag(schema: Schema, rep: Report):
+    """code that meets EVERY child (groom, its overrides, the fold) never indexes a partial table by a child's tag"""
+    from .flat import flat
+    from .source import parent
+
+    rep.rule("U-R10", "groom() and its overrides, from_etree and the fold see every child, unknown ones included: none of them subscripts a module- or class-level table with a key made from a child's tag (`TABLE[child.tag.upper()]`) unless membership in that very table was tested (or KeyError is handled) - a guard that is wider than the table (`iskeyword(tag)` for a table of two keywords) makes an unknown tag such as <CLASS> or <PASS> raise KeyError, and the document is rejected")
+    p = schema.p
+    fns = []
+    for nm in ("groom", "ungroom", "from_etree", "_convert"):
+        f = schema.aggregate.own_func(nm)
+        if f is not None:
+            fns.append((schema.aggregate, nm, f))
+    fns += [(ci, nm, f) for ci, nm, f in groom_overrides(schema)]
+    n = 0
+    for ci, nm, fn0 in fns:
+        try:
+            fn = flat(p, ci.module, fn0, ci)
+        except Exception:
+            fn = fn0
+        for x in ast.walk(fn):
+            for ch in ast.iter_child_nodes(x):
+                ch._parent = x
+        for x in ast.walk(fn):
+            if not (isinstance(x, ast.Subscript) and isinstance(x.ctx, ast.Load) and isinstance(x.value, ast.Name)):
+                continue
+            if not any(isinstance(y, ast.Attribute) and y.attr == "tag" for y in ast.walk(x.slice)):
+                continue
+            tbl = x.value.id
+            if not p.has_binding(ci.module, tbl):
+                continue
+            binds = [pl for bn, kd, pl in p.module(ci.module).bindings if bn == tbl and kd == "assign"]
+            if not (binds and isinstance(binds[-1], (ast.Dict, ast.DictComp))):
+                continue
+            n += 1
+            guarded = False
+            par = parent(x)
+            while par is not None and par is not fn:
+                if isinstance(par, (ast.If, ast.IfExp)) and re.search(rf"\bin {re.escape(tbl)}\b", text(par.test)):
+                    guarded = True
+                if isinstance(par, ast.Try) and any(h.type is None or any(k in text(h.type) for k in ("KeyError", "LookupError", "Exception")) for h in par.handlers) and any(y is x for b in par.body for y in ast.walk(b)):
+                    guarded = True
+                par = parent(par)
+            rep.check("U-R10", f"{ci.name}.{nm}:{tbl}[<tag>]", guarded, f"{text(x)[:50]} is evaluated for children whose tag is not a key of {tbl} (no `in {tbl}` test, no KeyError handler around it): an unknown or vendor element with such a tag raises KeyError out of the conversion instead of being skipped" if not guarded else "", f"{ci.mod.relpath}:{x.lineno}")
+    if n == 0:
+        rep.check("U-R10", "groom:no-table-indexed-by-tag", True, f"{len(fns)} functions", "")
